@@ -473,7 +473,7 @@ impl Rewrite for ast::WherePredicate {
                 let type_str = bounded_ty.rewrite_result(context, shape)?;
                 let colon = type_bound_colon(context).trim_end();
                 let lhs = if let Some(binder_str) =
-                    rewrite_bound_params(context, shape, bound_generic_params)
+                    rewrite_bound_params(context, shape, bound_generic_params)?
                 {
                     format!("for<{binder_str}> {type_str}{colon}")
                 } else {
@@ -768,7 +768,7 @@ impl Rewrite for ast::PolyTraitRef {
 
     fn rewrite_result(&self, context: &RewriteContext<'_>, shape: Shape) -> RewriteResult {
         let (binder, shape) = if let Some(lifetime_str) =
-            rewrite_bound_params(context, shape, &self.bound_generic_params)
+            rewrite_bound_params(context, shape, &self.bound_generic_params)?
         {
             // 6 is "for<> ".len()
             let extra_offset = lifetime_str.len() + 6;
@@ -1045,7 +1045,7 @@ impl Rewrite for ast::Ty {
                     // and `Ty` are distinct types.
                     result.push_str("unsafe<> ")
                 } else if let Some(ref lifetime_str) =
-                    rewrite_bound_params(context, shape, &binder.generic_params)
+                    rewrite_bound_params(context, shape, &binder.generic_params)?
                 {
                     result.push_str("unsafe<");
                     result.push_str(lifetime_str);
@@ -1093,7 +1093,7 @@ fn rewrite_bare_fn(
 
     let mut result = String::with_capacity(128);
 
-    if let Some(ref lifetime_str) = rewrite_bound_params(context, shape, &bare_fn.generic_params) {
+    if let Some(ref lifetime_str) = rewrite_bound_params(context, shape, &bare_fn.generic_params)? {
         result.push_str("for<");
         // 6 = "for<> ".len(), 4 = "for<".
         // This doesn't work out so nicely for multiline situation with lots of
@@ -1336,20 +1336,20 @@ pub(crate) fn can_be_overflowed_type(
     }
 }
 
-/// Returns `None` if there is no `GenericParam` in the list
+/// Returns `Ok(None)` if there is no `GenericParam` in the list
 pub(crate) fn rewrite_bound_params(
     context: &RewriteContext<'_>,
     shape: Shape,
     generic_params: &[ast::GenericParam],
-) -> Option<String> {
+) -> Result<Option<String>, RewriteError> {
     let result = generic_params
         .iter()
-        .map(|param| param.rewrite(context, shape))
-        .collect::<Option<Vec<_>>>()?
+        .map(|param| param.rewrite_result(context, shape))
+        .collect::<Result<Vec<_>, _>>()?
         .join(", ");
     if result.is_empty() {
-        None
+        Ok(None)
     } else {
-        Some(result)
+        Ok(Some(result))
     }
 }
